@@ -9,6 +9,8 @@ Wr(v) == [op |-> "write", v |-> v, kind |-> "-", tok |-> "-", mode |-> "-"]
 Tr(kind, tok) == [op |-> "transform", v |-> <<>>, kind |-> kind, tok |-> tok, mode |-> "-"]
 HoldOp(mode) == [op |-> "hold", v |-> <<>>, kind |-> "-", tok |-> "-", mode |-> mode]
 Mx == [op |-> "mutex", v |-> <<>>, kind |-> "-", tok |-> "-", mode |-> "-"]
+\* a Mutex value of the actor's own for the same path (as another process would have): only the file lock excludes
+MxOwn == [op |-> "mutex", v |-> <<>>, kind |-> "-", tok |-> "-", mode |-> "own"]
 P(x, y, z) == ("a1" :> x) @@ ("a2" :> y) @@ ("a3" :> z)
 
 \* C06: every kind of holder against every other
@@ -18,8 +20,11 @@ ProgsC06 == {
   P(<<HoldOp("create")>>, <<Rd>>, <<Tr("append", "x")>>),
   P(<<Wr(<<"p", "q", "r">>)>>, <<HoldOp("r")>>, <<HoldOp("w")>>),
   P(<<Mx, Mx>>, <<Mx>>, <<Mx>>),
+  P(<<MxOwn, MxOwn>>, <<MxOwn>>, <<Mx>>),
   P(<<HoldOp("wx")>>, <<HoldOp("w")>>, <<Rd>>),
-  P(<<HoldOp("cf")>>, <<HoldOp("wf")>>, <<HoldOp("cf")>>)
+  P(<<HoldOp("cf")>>, <<HoldOp("wf")>>, <<HoldOp("cf")>>),
+  P(<<HoldOp("excl")>>, <<HoldOp("wnew")>>, <<HoldOp("wnew")>>),
+  P(<<HoldOp("wa")>>, <<HoldOp("r")>>, <<HoldOp("wa"), HoldOp("w")>>)
 }
 \* C07: readers, writers and transformers of all length relations
 ProgsC07 == {
